@@ -79,6 +79,11 @@ def run(ctx):
     ctx.do(rule_only_21_mechanisms, rule_id="C04.version-constants")
     from .pitfalls import rule_loop_flags_monotone
     ctx.do(rule_loop_flags_monotone, "C04.flag-back", ("stix2.base", "stix2.properties"))
+    ctx.do(rule_reference_flag_truth_table)
+    # every value goes through its cleaner: the constructor pipeline (C02's clauses) is what applies the refusal at all
+    from . import C02 as _C02
+    ctx.do_as(_C02.rule_init_pipeline, {"C02.init-pipeline": "C04.every-value-cleaned"})
+    ctx.do(_C02.rule_init_loops, rule_id="C04.every-value-cleaned")
     # the property tables of registered extension classes are what decides "defined or custom" for every later object
     from . import C17
     ctx.do(C17.rule_registry_class_attr, rule_id="C04.history-independence")
@@ -1043,3 +1048,55 @@ def rule_extra_props(ctx):
         run.check(bool(loops) and tn in dom[loops[0]], R, key(rel, fi.qualname, "refusal-before-cleaning"),
                   "the refusal does not precede the cleaning loop", file=rel, line=tests[0].lineno, function=fi.qualname,
                   expected="test dominates the loop", found="not dominated")
+
+
+def _truth(e, atoms, env):
+    """value of a boolean expression over named atoms (None: not decidable)"""
+    if isinstance(e, ast.BoolOp):
+        vs = [_truth(v, atoms, env) for v in e.values]
+        if any(v is None for v in vs):
+            return None
+        return all(vs) if isinstance(e.op, ast.And) else any(vs)
+    if isinstance(e, ast.UnaryOp) and isinstance(e.op, ast.Not):
+        v = _truth(e.operand, atoms, env)
+        return None if v is None else (not v)
+    for name, pred in atoms.items():
+        if pred(e):
+            return env[name]
+    return None
+
+
+def rule_reference_flag_truth_table(ctx):
+    """A reference is custom content when the referenced type is NOT registered for the version, OR carries the `x-` prefix of
+    custom types (registered or not).  The first definition of the flag in ReferenceProperty.clean is a boolean expression over
+    exactly those two tests; its truth table is evaluated (four rows) -- a misplaced parenthesis or a swapped connective changes
+    a row without changing any name the other clauses look at."""
+    import itertools
+    run = ctx.run
+    prog = ctx.prog
+    R = "C04.flag-back"
+    fi = prog.cls("stix2.properties::ReferenceProperty").methods.get("clean")
+    if fi is None:
+        raise AnalysisError("anchor missing: ReferenceProperty.clean")
+    atoms = {
+        "registered": lambda e: isinstance(e, ast.Call) and call_simple_name(e) == "is_object",
+        "x-prefixed": lambda e: isinstance(e, ast.Call) and isinstance(e.func, ast.Attribute) and e.func.attr == "startswith"
+        and e.args and isinstance(e.args[0], ast.Constant) and e.args[0].value == "x-",
+    }
+    cands = [a_ for a_ in body_walk(fi.node) if isinstance(a_, ast.Assign) and isinstance(a_.targets[0], ast.Name)
+             and any(atoms["registered"](x) for x in ast.walk(a_.value)) and any(atoms["x-prefixed"](x) for x in ast.walk(a_.value))]
+    if not cands:
+        raise AnalysisError("ReferenceProperty.clean: the definition of the flag from is_object() and the x- prefix was not found")
+    a_ = cands[0]
+    wrong = []
+    for reg, xp in itertools.product((False, True), repeat=2):
+        got = _truth(a_.value, atoms, {"registered": reg, "x-prefixed": xp})
+        want = (not reg) or xp
+        if got is None:
+            raise AnalysisError("ReferenceProperty.clean: flag expression not decidable over the two tests: %s" % norm(a_.value))
+        if got != want:
+            wrong.append("registered=%s, x-prefixed=%s -> %s (must be %s)" % (reg, xp, got, want))
+    run.check(not wrong, R, key(fi.module.relpath, fi.qualname, "reference-flag-truth-table"),
+              "the flag of a reference is not `unregistered or x-prefixed`: %s -- a reference to such a type is admitted with "
+              "customisation disallowed (or a plain reference is flagged)" % "; ".join(wrong), file=fi.module.relpath, line=a_.lineno,
+              function=fi.qualname, expected="not is_object(type, version) or type.startswith('x-')", found=norm(a_.value))
